@@ -194,7 +194,7 @@ theorem setStream_eff (s : OBuf) (h : OInv s) :
 
 /-- the operations that leave the put area empty -/
 def OOp.syncs : OOp → Bool
-  | .flush | .reattach | .ovEof | .destroy => true
+  | .flush | .reattach | .setStream _ | .ovEof | .destroy => true
   | _ => false
 
 /-- every operation on an `OutBuf` in a good state succeeds (no access outside `buffer_`) and has
@@ -214,6 +214,9 @@ theorem apply_eff (s : OBuf) (h : OInv s) (op : OOp) :
   | reattach =>
     obtain ⟨s', h1, h2, h3⟩ := setStream_eff s h
     exact ⟨s', _, h1, by simpa [inserted] using h2, fun _ => by simp [OBuf.pending, h3]⟩
+  | setStream j =>
+    obtain ⟨s', h1, h2, h3⟩ := setStream_eff s h
+    exact ⟨s', _, h1, by simpa [inserted] using h2, fun _ => by simp [OBuf.pending, h3]⟩
   | ovEof =>
     obtain ⟨s', h1, h2, h3⟩ := overflow_eof_eff s h
     exact ⟨s', _, h1, by simpa [inserted] using h2, fun _ => by simp [OBuf.pending, h3]⟩
@@ -231,6 +234,39 @@ theorem inserted_append (a b : List OOp) : inserted (a ++ b) = inserted a ++ ins
 theorem inserted_cons (op : OOp) (ops : List OOp) : inserted (op :: ops) = inserted [op] ++ inserted ops :=
   inserted_append [op] ops
 
+/-- the adaptor part of a step of adaptor + streams is the step of the adaptor -/
+theorem OSt.step_of_apply (s : OSt) (op : OOp) (ob1 : OBuf) (cs : List Bytes) (ha : s.ob.apply op = some (ob1, cs)) :
+    ∃ s1 : OSt, s.step op = some (s1, cs) ∧ s1.ob = ob1 := by
+  unfold OSt.step; rw [ha]
+  cases op with
+  | setStream j =>
+    simp only
+    cases (s.parked.set s.idx (cs.foldl sinkWrite s.sink))[j]? with
+    | none => exact ⟨_, rfl, rfl⟩
+    | some a => exact ⟨_, rfl, rfl⟩
+  | put c => exact ⟨_, rfl, rfl⟩
+  | write bs => exact ⟨_, rfl, rfl⟩
+  | flush => exact ⟨_, rfl, rfl⟩
+  | reattach => exact ⟨_, rfl, rfl⟩
+  | ovEof => exact ⟨_, rfl, rfl⟩
+  | destroy => exact ⟨_, rfl, rfl⟩
+  | useek p => exact ⟨_, rfl, rfl⟩
+
+/-- `set_stream(stream j)` on adaptor + streams (proved through a generic operation so that nothing unfolds
+the arithmetic of `sync`) -/
+theorem OSt.step_setStream (s : OSt) (j : Nat) (ob1 : OBuf) (cs : List Bytes) (ha : s.ob.setStream = some (ob1, cs)) :
+    s.step (.setStream j) =
+      match (s.parked.set s.idx (cs.foldl sinkWrite s.sink))[j]? with
+      | none => some ({ s with ob := ob1, sink := cs.foldl sinkWrite s.sink }, cs)
+      | some a => some ({ ob := ob1, sink := a, idx := j, parked := s.parked.set s.idx (cs.foldl sinkWrite s.sink) }, cs) := by
+  have key : ∀ op, op = OOp.setStream j → s.ob.apply op = some (ob1, cs) → s.step op =
+      match (s.parked.set s.idx (cs.foldl sinkWrite s.sink))[j]? with
+      | none => some ({ s with ob := ob1, sink := cs.foldl sinkWrite s.sink }, cs)
+      | some a => some ({ ob := ob1, sink := a, idx := j, parked := s.parked.set s.idx (cs.foldl sinkWrite s.sink) }, cs) := by
+    intro op hop hap
+    unfold OSt.step; rw [hap]; subst hop; rfl
+  exact key _ rfl ha
+
 /-- histories: never `ub`, the calls made plus the pending bytes are exactly the inserted bytes -/
 theorem orun_eff : ∀ (ops : List OOp) (s : OSt), OInv s.ob →
     ∃ s' cs, orun s ops = some (s', cs) ∧ OEff s.ob s'.ob cs (inserted ops) := by
@@ -240,9 +276,7 @@ theorem orun_eff : ∀ (ops : List OOp) (s : OSt), OInv s.ob →
   | cons op ops ih =>
     intro s h
     obtain ⟨ob1, cs1, ha, heff1, _⟩ := apply_eff s.ob h op
-    have hstep : ∃ s1 : OSt, s.step op = some (s1, cs1) ∧ s1.ob = ob1 := by
-      unfold OSt.step; rw [ha]; exact ⟨_, rfl, rfl⟩
-    obtain ⟨s1, hs1, hob⟩ := hstep
+    obtain ⟨s1, hs1, hob⟩ := OSt.step_of_apply s op ob1 cs1 ha
     obtain ⟨s2, cs2, hr, heff2⟩ := ih s1 (by rw [hob]; exact heff1.inv)
     refine ⟨s2, cs1 ++ cs2, ?_, ?_⟩
     · simp only [orun, hs1, hr]
